@@ -31,6 +31,9 @@ type SOp struct {
 	// FailOp (C09, GC only): the k-th disk operation of any kind - reads, stats and listings
 	// included - fails with EIO
 	FailOp int `json:"fail_op,omitempty"`
+	// Cancel (push, C06): the context of the call ends while its reader hands over the last bytes;
+	// the push may succeed or fail, a failed one must have changed nothing
+	Cancel bool `json:"cancel,omitempty"`
 }
 
 func (o SOp) String() string {
@@ -93,6 +96,20 @@ func errClass(err error) string {
 		return "invalidref"
 	}
 	return "other:" + err.Error()
+}
+
+// cancellingReader ends the context of the call it feeds when it reports the end of its content.
+type cancellingReader struct {
+	r      io.Reader
+	cancel context.CancelFunc
+}
+
+func (c *cancellingReader) Read(p []byte) (int, error) {
+	n, err := c.r.Read(p)
+	if err == io.EOF {
+		c.cancel()
+	}
+	return n, err
 }
 
 func dataHash(b []byte) string { return fmt.Sprintf("%x", sha256.Sum256(b)) }
@@ -509,6 +526,15 @@ func execOp(ctx context.Context, st any, g *Graph, op SOp) SRes {
 	}
 	switch op.Op {
 	case "push":
+		if op.Cancel {
+			cctx, cancel := context.WithCancel(ctx)
+			defer cancel()
+			err := st.(content.Pusher).Push(cctx, node.Desc, &cancellingReader{r: strings.NewReader(string(node.Data)), cancel: cancel})
+			if err != nil && errClass(err) != "exists" && errClass(err) != "dupname" {
+				return SRes{Err: "cancelled"}
+			}
+			return SRes{Err: errClass(err)}
+		}
 		err := st.(content.Pusher).Push(ctx, node.Desc, strings.NewReader(string(node.Data)))
 		return SRes{Err: errClass(err)}
 	case "fetch":
@@ -553,6 +579,10 @@ func execOp(ctx context.Context, st any, g *Graph, op SOp) SRes {
 	case "untag":
 		return SRes{Err: errClass(st.(content.Untagger).Untag(ctx, op.Ref))}
 	case "delete":
+		if op.Var == 3 {
+			// by the descriptor Resolve(<digest>) returns for a blob (application/octet-stream)
+			return errRes(st.(content.Deleter).Delete(ctx, g.descVariant(node.Desc, 3)))
+		}
 		return errRes(st.(content.Deleter).Delete(ctx, node.Desc))
 	case "tags":
 		var out []string
